@@ -10,7 +10,7 @@ abstract pieces into real paramiko objects and real bytes.
                     public bytes), each obtainable through several API routes ("ways").
 * wire helpers    - strict SSH string / mpint encoders and the splitter for a *genuine* signature message.
 * `render_tamper` - concretises a tamper class of Signatures.tla into byte-level variants.
-* `classify_random_mutation` - for a position-uniform random edit of the wire, the tamper class it belongs
+* `random_mutation` - a position-uniform random edit of the wire together with the tamper class it belongs
                     to (decided from the structure the wire was built from, not by re-parsing like paramiko).
 """
 import base64
